@@ -62,6 +62,12 @@ class Gen:
         self.recs = {}; self.unis = {}
         self.mk = {}; self.gens = {}; self.over = {}; self.thr = {}
 
+    def utag(self, un, T):
+        """a branch tag of union variable un holding type T.  Shape 1 is Union(i: MI, t: String); shape 2 (feature
+        'taggedunion', only when asked for explicitly) is Union(lo: MI, hi: MI, nm: String), built with [tag == value]"""
+        if self.unis[un] == 2: return self.r.choice(['lo', 'hi']) if T == MI else 'nm'
+        return 'i' if T == MI else 't'
+
     def fresh(self, p):
         self.n += 1
         return 'zq%s%d' % (p, self.n)
@@ -144,7 +150,9 @@ class Gen:
                 if rn in scope: return ('recfld', rn, 'p', MI)
             if c < 0.96 and self.unis:
                 un = r.choice(sorted(self.unis))
-                if un in scope: return ('if', MI, ('ucase', un, 'i'), ('ufld', un, 'i', MI), self.lit(MI))
+                if un in scope:
+                    tg = self.utag(un, MI)
+                    return ('if', MI, ('ucase', un, tg), ('ufld', un, tg, MI), self.lit(MI))
             return ('bin', r.choice(['+', '-']), MI, self.expr(MI, scope, d - 1), self.lit(MI))
         if T == INT:
             self.tags.add('bignum')
@@ -174,7 +182,7 @@ class Gen:
             if c < 0.78 and 'lists' in self.feat: return ('empty', self.expr(LMI, scope, d - 1))
             if c < 0.84 and self.unis:
                 un = r.choice(sorted(self.unis))
-                if un in scope: self.tags.add('union'); return ('ucase', un, r.choice(['i', 't']))
+                if un in scope: self.tags.add('union'); return ('ucase', un, self.utag(un, r.choice([MI, STR])))
             if c < 0.9 and 'strings' in self.feat: return ('cmp', r.choice(['=', '~=']), self.expr(STR, scope, d - 1), self.expr(STR, scope, d - 1), STR)
             return self.lit(BOOL)
         if T == STR:
@@ -183,7 +191,9 @@ class Gen:
             if c < 0.5: return ('if', STR, self.cond(scope, d - 1), self.expr(STR, scope, d - 1), self.expr(STR, scope, d - 1))
             if c < 0.6 and self.unis:
                 un = r.choice(sorted(self.unis))
-                if un in scope: return ('if', STR, ('ucase', un, 't'), ('ufld', un, 't', STR), self.lit(STR))
+                if un in scope:
+                    tg = self.utag(un, STR)
+                    return ('if', STR, ('ucase', un, tg), ('ufld', un, tg, STR), self.lit(STR))
             return self.lit(STR)
         if T == LMI:
             self.tags.add('list')
@@ -310,6 +320,18 @@ class Gen:
         if 'unions' in self.feat:
             un = self.fresh('u'); self.unis[un] = 1; self.tags.add('union')
             main.append(('unidecl', un, 'i', self.expr(MI, scope, 2)) if r.random() < 0.5 else ('unidecl', un, 't', self.expr(STR, scope, 1))); scope[un] = 'UNI'
+        if 'counters' in self.feat:
+            # opt-in: a curried counter whose innermost closure assigns a variable two environment levels up
+            self.tags.add('counters')
+            self.counter_fn = self.fresh('mkc')
+            gname = self.fresh('g')
+            main.append(('cdecl', gname, self.expr(MI, scope, 1)))
+            self.csteps = []
+            for _ in range(r.randint(2, 3)):
+                f = self.fresh('st'); main.append(('cstep', f, gname, ('lit', MI, r.randint(1, 12)))); self.csteps.append(f)
+        if 'taggedunion' in self.feat:
+            un = self.fresh('w'); self.unis[un] = 2; self.tags.add('union'); self.tags.add('taggedunion')
+            main.append(('unidecl', un, self.utag(un, MI), self.expr(MI, scope, 2)) if r.random() < 0.6 else ('unidecl', un, 'nm', self.expr(STR, scope, 1))); scope[un] = 'UNI'
         for _ in range(self.size):
             main.append(self.mainstmt(scope, 2))
         if 'exceptions' in self.feat and self.thr and r.random() < 0.25:
@@ -354,7 +376,10 @@ class Gen:
         return {n: t for n, t in scope.items() if t != 'UNI'}
 
     def mainstmt(self, scope, d):
-        r = self.r; c = r.random()
+        r = self.r
+        if getattr(self, 'csteps', None) and d >= 2 and r.random() < 0.3:       # only at the top level of the main part
+            return ('ccall', r.choice(self.csteps))
+        c = r.random()
         if c < 0.40:
             T = r.choice([MI, MI, INT, BOOL, STR, LMI])
             if (T == INT and 'bignum' not in self.feat) or (T == STR and 'strings' not in self.feat) or (T == LMI and 'lists' not in self.feat): T = MI
@@ -374,7 +399,7 @@ class Gen:
             if rn in scope: return ('setfld', rn, r.choice(['p', 'q']), None) if False else (('setfld', rn, 'p', self.expr(MI, scope, 2)) if r.random() < 0.5 else ('setfld', rn, 'q', self.expr(INT, scope, 2)))
         if c < 0.85 and self.unis:
             un = r.choice(sorted(self.unis))
-            if un in scope: return ('setu', un, 'i', self.expr(MI, scope, 2)) if r.random() < 0.5 else ('setu', un, 't', self.expr(STR, scope, 1))
+            if un in scope: return ('setu', un, self.utag(un, MI), self.expr(MI, scope, 2)) if r.random() < 0.5 else ('setu', un, self.utag(un, STR), self.expr(STR, scope, 1))
         if c < 0.95 and 'exceptions' in self.feat and d > 0:
             self.tags.add('try')
             scope = self.nested(scope)
@@ -520,10 +545,17 @@ class Render:
             a = '%stry {\n%s\n%s} catch E in {\n%s\tE has ZqExc => {\n%s\n%s\t};\n%s\tnever\n%s}' % (p, self.ss(st[1], ind + 1), p, p, self.ss(st[2], ind + 2), p, p, p)
             if st[3]: a += ' finally {\n%s\n%s}' % (self.ss(st[3], ind + 1), p)
             return a + ';'
+        if k == 'cdecl': return '%s%s: MI -> (() -> MI) := %s(%s);' % (p, st[1], self.g.counter_fn, self.e(st[2], True))
+        if k == 'cstep': return '%s%s: () -> MI := %s(%s);' % (p, st[1], st[2], self.e(st[3], True))
+        if k == 'ccall': return '%spM(%s());' % (p, st[1])
         if k == 'recdecl': return '%s%s: Record(p: MI, q: INT) := [%s, %s];' % (p, st[1], self.e(st[2], True), self.e(st[3], True))
-        if k == 'unidecl': return '%s%s: Union(i: MI, t: String) := [%s];' % (p, st[1], self.e(st[3], False))
+        if k == 'unidecl':
+            if st[2] in ('lo', 'hi', 'nm'): return '%s%s: Union(lo: MI, hi: MI, nm: String) := [%s == %s];' % (p, st[1], st[2], self.e(st[3], True))
+            return '%s%s: Union(i: MI, t: String) := [%s];' % (p, st[1], self.e(st[3], False))
         if k == 'setfld': return '%s%s.%s := %s;' % (p, st[1], st[2], self.e(st[3], True))
-        if k == 'setu': return '%s%s := [%s];' % (p, st[1], self.e(st[3], False))
+        if k == 'setu':
+            if st[2] in ('lo', 'hi', 'nm'): return '%s%s := [%s == %s];' % (p, st[1], st[2], self.e(st[3], True))
+            return '%s%s := [%s];' % (p, st[1], self.e(st[3], False))
         raise KeyError(k)
 
     def ss(self, sts, ind, ret=None):
@@ -562,6 +594,8 @@ class Render:
             o.append('%s(x: MI): MI == x + %s;\n%s(s: String): MI == (#s) * 2;' % (on, self.lit(k), on))
         for tn, (lim, exc, add) in sorted(g.thr.items()):
             o.append('%s(n: MI): MI == { if n > %s then throw %s; n + %s }' % (tn, self.lit(lim), exc, self.lit(add)))
+        if getattr(g, 'counter_fn', None):
+            o.append('%s(start: MI): MI -> (() -> MI) == {\n\tn := start;\n\t(k: MI): (() -> MI) +-> {\n\t\tkk := k;\n\t\t(): MI +-> { free n; n := n + kk; n }\n\t}\n}' % g.counter_fn)
         for t in self.extra_top: o.append(t)
         o.append('-- main')
         o.append('\n'.join(self.s(x, 0) for x in g.main))
@@ -732,6 +766,12 @@ class Eval:
                 except _Throw: self.block(st[2], env)
             finally:
                 if st[3]: self.block(st[3], env)
+        elif k == 'cdecl': env[st[1]] = {'n': self.e(st[2], env)}
+        elif k == 'cstep': env[st[1]] = (env[st[2]], self.e(st[3], env))
+        elif k == 'ccall':
+            box, kk = env[st[1]]
+            box['n'] = self.mi(box['n'] + kk)
+            self.emit(MI, box['n'])
         elif k == 'recdecl': env[st[1]] = {'p': self.e(st[2], env), 'q': self.e(st[3], env)}
         elif k == 'unidecl' or k == 'setu': env[st[1]] = (st[2], self.e(st[3], env))
         elif k == 'setfld': env[st[1]][st[2]] = self.e(st[3], env)
@@ -755,20 +795,27 @@ class Eval:
         except (_Break, _Iterate, _Return):
             raise Discard('control escaped')
 
-def make(seed, mi_bits=62, features=None, size=None):
+ALLF = ['funcs', 'recursion', 'closures', 'generators', 'overload', 'macros', 'domains', 'exceptions', 'records', 'unions', 'lists', 'bignum', 'strings', 'earlyexit', 'loops']
+def features_with(seed, extra):
+    """a seed-determined subset of the default features plus the opt-in ones in `extra`"""
+    r = random.Random('feat/' + seed)
+    return set(r.sample(ALLF, r.randint(4, len(ALLF)))) | set(extra)
+
+def make(seed, mi_bits=62, features=None, size=None, extra=None):
     """returns (Gen, source text, expected stdout, expected exit class) or raises Discard"""
+    if extra and features is None: features = features_with(seed, extra)
     g = Gen(seed, size=size, features=features).build()
     ev = Eval(g, mi_bits=mi_bits)
     out, cls = ev.run()
     return g, Render(g).text(), out, cls
 
-def programs(seed0, count, mi_bits=62, max_tries=None):
+def programs(seed0, count, mi_bits=62, max_tries=None, extra=None):
     """yield up to `count` programs that pass the discipline; also counts discards"""
     n = 0; tried = 0; disc = 0
     while n < count and tried < (max_tries or count * 20):
         sd = '%s/%d' % (seed0, tried); tried += 1
         try:
-            g, text, out, cls = make(sd, mi_bits)
+            g, text, out, cls = make(sd, mi_bits, extra=extra)
         except Discard:
             disc += 1; continue
         except RecursionError:
